@@ -33,6 +33,10 @@ RouteVerdict(ln) ==
 HeaderVerdict(ln) ==
      (IF ln.status # 401 /\ ln.hver # ln.v THEN {"C14_version_header"} ELSE {})
 \cup (IF ln.status # 401 /\ ~ln.vary THEN {"C14_vary_header"} ELSE {})
+\* 1.15: the cache headers on every successful GET, whatever it returns
+\cup (IF ln.method = "GET" /\ ln.status \in {200, 204}
+         /\ ((ln.v >= CacheHeadersFrom /\ ~ln.cache) \/ (ln.v < CacheHeadersFrom /\ ln.anycache))
+      THEN {"C14_cache_headers"} ELSE {})
 
 FeatureVerdict(ln) ==
   IF ln.present = Present(ln.fid, ln.v) THEN {}
